@@ -548,6 +548,34 @@ def native_path_choice(chk):
     chk.sample({'analysed directory': '%d runs of the compiled binary: --path x configured path x ./contracts, readable or not' % n})
 
 
+def native_cross_category_names(chk):
+    """a name is known PER CATEGORY: the name of a pattern of another category is an unknown name, also when the same name (in any letter
+    case) is validly listed in its own category; the compiled binary must fail before any report is written"""
+    text = 'pragma solidity ^0.8.16;\ncontract Sel {\n    uint256 st; function w() public { st = 1; }\n}\n'
+    cases = [('a name of an optimization under vulnerabilities, also listed under optimizations', 'optimizations = ["sstore"]\nvulnerabilities = ["floating_pragma", "SStore"]\nqa = []\n', False),
+             ('a name of a vulnerability under qa, also listed under vulnerabilities', 'optimizations = []\nvulnerabilities = ["floating_pragma"]\nqa = ["Floating_Pragma"]\n', False),
+             ('a name of an optimization under qa, also listed under optimizations', 'optimizations = ["sstore", "solidity_math"]\nvulnerabilities = []\nqa = ["solidity_math"]\n', False),
+             ('a qa name under optimizations only', 'optimizations = ["constructor_order"]\nvulnerabilities = []\nqa = []\n', False),
+             ('the same valid name twice in its own list', 'optimizations = ["sstore", "SSTORE"]\nvulnerabilities = ["floating_pragma"]\nqa = []\n', True)]
+    for what, cfg, valid in cases:
+        d = os.path.join(chk.native.dir, 'cc%d' % chk.native.n)
+        chk.native.n += 1
+        os.makedirs(os.path.join(d, 'proj'))
+        open(os.path.join(d, 'proj', 'Sel.sol'), 'w').write(text)
+        open(os.path.join(d, 'cfg.toml'), 'w').write('path = "proj"\n' + cfg)
+        p = subprocess.run([os.path.join(chk.world.build, 'solstat'), '--toml', 'cfg.toml'], cwd=d, stdout=subprocess.PIPE, stderr=subprocess.PIPE, text=True)
+        chk.validated += 1
+        rep = os.path.exists(os.path.join(d, 'solstat_report.md'))
+        if valid and (p.returncode != 0 or not rep):
+            chk.violation('main:known-name-rejected', 'solstat --toml with %s: exit status %d, report %s' % (what, p.returncode, 'written' if rep else 'not written'),
+                          {'job': 'solstat', 'config': 'path = "proj"\n' + cfg, 'source': text, 'observed': ''})
+        elif not valid and (p.returncode == 0 or rep):
+            chk.violation('main:unknown-name-accepted', 'solstat --toml with %s: exit status %d, report %s (an unknown name must fail the run before any report is written)' % (
+                what, p.returncode, 'written' if rep else 'not written'), {'job': 'solstat', 'config': 'path = "proj"\n' + cfg, 'source': text, 'observed': open(os.path.join(d, 'solstat_report.md')).read()[:300] if rep else ''})
+        else:
+            chk.ok()
+
+
 def body(chk):
     chk.bounds = {'names': 'every name of the docs tables / README / Solstat.toml with a SYMBOLIC casing mask (all 2^len casings at once); unknown names: symbolic strings over [a-z0-9_ -], length <= 40',
                   'Opts::new': '--path / --toml / ./contracts present or not (8 combinations), per category the pattern list: empty, one of 3 known names, an unknown name, two names; path strings symbolic',
@@ -562,6 +590,7 @@ def body(chk):
     check_main_order(chk)
     check_main_selection(chk)
     native_path_choice(chk)
+    native_cross_category_names(chk)
 
 
 if __name__ == '__main__':
